@@ -15,7 +15,8 @@ RULE = ("TLC enumerates solution descriptors per dimension with the other dimens
         "time-step patterns (1..3 states, start 0/3, gaps); every real leaf x 10 value classes (zero, -0.0, int-valued "
         "float, python int, ordinary, 1e-7-like, 1e20-like, negative, 17 significant digits, extreme magnitudes) and all "
         "leaves uniform; numpy scalar leaves (float64 / int64 for every kind, float32 for KS); "
-        "all 8 metadata presence subsets, every computation-time class / date / processor-name / scenario-id token; "
+        "all 8 metadata presence subsets, every computation-time class / date token / processor-name text class "
+        "(plain, (R)/(TM), XML specials, blanks, non-ASCII, empty, 200 chars, auto, tabs/newlines) / scenario-id token; "
         "every sequence of 2..3 kinds as a cooperative solution (in and out of schema order, ids ascending and not); "
         "plus a seeded random sample mixing all dimensions.  Each descriptor is built through public constructors, "
         "dumped with CommonRoadSolutionWriter.dump(), validated with lxml against the shipped .xsd (cross-check of the "
@@ -23,7 +24,9 @@ RULE = ("TLC enumerates solution descriptors per dimension with the other dimens
         "descriptors.")
 ASSUMPTIONS = ["state values are finite python floats / ints picked from a fixed table per value-class token",
                "time steps ascending as given (Trajectory documents an ordered state list); planning problem ids distinct",
-               "processor_name 'auto' (documented as machine-dependent) is outside the compared scope",
+               "processor_name 'auto' (documented: determined automatically) and names with tabs/line breaks (XML attribute "
+               "normalisation) are EITHER bands declared in SolutionCodec.tla: read-back must work, the value is not asserted",
+               "computation time 0 / negative is rejected by the Solution constructor and therefore not a solution",
                "schema conformance is asserted only for solutions whose trajectory types the shipped schema defines and "
                "that list them in schema order (statement); lxml's verdict is only a cross-check of SchemaAccepts",
                "expected read-back / schema verdicts are computed by TLC from SolutionCodec.tla, not by the harness"]
@@ -46,11 +49,16 @@ _RANDOM_CLASSES = sorted(_VALS)
 _NP = {"np64": ("float64", [0.1, 12.25, 1e-7, 3.3000000000000003, -27.125, 1e20, 0.7]),
        "npint": ("int64", [7, 3, 11, 42, 1, 250, 19]),
        "np32": ("float32", [0.1, 12.3, 1e-7, 3.3, -27.7, 1e20, 0.7])}
-_CT = {"intf": 5.0, "pyint": 7, "ord": 0.123, "tiny": 1e-7, "huge": 1e20, "sig17": 0.30000000000000004}
-_PROC = {"plain": "Intel Core i7-8550U CPU @ 1.80GHz", "xml": "AMD <Ryzen> & \"7\" 'x' 5800X",
-         "unicode": "Prozessor \u00fc \u6d4b\u8bd5 \u00b5", "spaces": "  Intel  Xeon  ", "empty": ""}
+_CT = {"intf": 5.0, "pyint": 7, "ord": 0.123, "tiny": 1e-7, "tiny9": 1e-9, "huge": 1e20,
+       "max": 1.7976931348623157e308, "sig17": 0.30000000000000004}
+_PROC = {"plain": "AMD Ryzen 7 5800X 8-Core Processor", "tm": "Intel(R) Core(TM) i7-8550U CPU @ 1.80GHz",
+         "xml": "AMD <Ryzen> & \"7\" 'x' 5800X", "unicode": "Gr\u00fc\u00dfe \u5904\u7406\u5668 \u00b5",
+         "spaces": "  Intel  Xeon  ", "empty": "", "long": ("Processor-0123456789 " * 10)[:200], "auto": "auto",
+         "ws": "Intel\tXeon\nGold\r6148"}
+_PROC_EITHER = ("auto", "ws")        # only used to COUNT band cases for the evidence; the band is declared in the spec
 _DATE = {"plain": (2020, 5, 17, 13, 45, 9, 0), "micro": (2021, 12, 31, 23, 59, 59, 999999),
-         "midnight": (2022, 1, 1, 0, 0, 0, 0), "leap": (2024, 2, 29, 6, 7, 8, 500000)}
+         "micro1": (2023, 6, 30, 12, 0, 0, 1), "midnight": (2022, 1, 1, 0, 0, 0, 0),
+         "eoy": (2023, 12, 31, 23, 59, 59, 0), "leap": (2024, 2, 29, 6, 7, 8, 500000)}
 # cooperative, country, map name, map id, configuration id, obstacle behavior, prediction id, version
 _SCEN = {"T": (False, "USA", "US101", 1, 1, "T", 1, "2020a"), "S": (False, "DEU", "Muc", 4, 2, "S", 1, "2020a"),
          "I": (False, "CHN", "Sha", 11, 3, "I", [1, 2], "2020a"), "coop": (True, "USA", "Lanker", 1, 2, "T", 1, "2020a"),
@@ -116,6 +124,8 @@ def cases(ctx):
         c["src"] = "tlc"
     for _ in range(20000 if ctx.thorough else 3000):
         cs.append(_random_case(ctx.rng))
+    ctx.extra["either_band_cases"] = {"processor_name(auto|ws)": sum(1 for c in cs if c["proc"] in _PROC_EITHER),
+                                      "of": len(cs)}
     return cs
 
 
@@ -360,7 +370,7 @@ def corrupt(trace, rng):
     elif w == "ComputationTime":
         e["ct"] = "differs" if e["ct"] != "differs" else "exact"
     elif w == "ProcessorName":
-        e["proc"] = "differs" if e["proc"] != "differs" else "equal"
+        e["proc"] = "present"          # never an expected projection, also outside the EITHER band's vocabulary
     elif w == "Date":
         e["date"] = "differs" if e["date"] != "differs" else "equal"
     return trace
